@@ -1354,7 +1354,7 @@ impl<'q, Q: Query> View<'q, Q> {
         Q: QueryShared,
     {
         let meta = self.meta.get(entity.id as usize)?;
-        if meta.generation != entity.generation {
+        if meta.generation != entity.generation || meta.location.index == u32::MAX {
             return None;
         }
 
@@ -1375,7 +1375,7 @@ impl<'q, Q: Query> View<'q, Q> {
         let Some(meta) = self.meta.get(entity.id as usize) else {
             return false;
         };
-        if meta.generation != entity.generation {
+        if meta.generation != entity.generation || meta.location.index == u32::MAX {
             return false;
         }
         self.fetch[meta.location.archetype as usize].is_some()
@@ -1388,7 +1388,7 @@ impl<'q, Q: Query> View<'q, Q> {
     /// Must not be invoked while any unique borrow of the fetched components of `entity` is live.
     pub unsafe fn get_unchecked(&self, entity: Entity) -> Option<Q::Item<'_>> {
         let meta = self.meta.get(entity.id as usize)?;
-        if meta.generation != entity.generation {
+        if meta.generation != entity.generation || meta.location.index == u32::MAX {
             return None;
         }
 
@@ -1546,7 +1546,7 @@ impl<'q, Q: Query> PreparedView<'q, Q> {
         Q: QueryShared,
     {
         let meta = self.meta.get(entity.id as usize)?;
-        if meta.generation != entity.generation {
+        if meta.generation != entity.generation || meta.location.index == u32::MAX {
             return None;
         }
 
@@ -1567,7 +1567,7 @@ impl<'q, Q: Query> PreparedView<'q, Q> {
         let Some(meta) = self.meta.get(entity.id as usize) else {
             return false;
         };
-        if meta.generation != entity.generation {
+        if meta.generation != entity.generation || meta.location.index == u32::MAX {
             return false;
         }
         self.fetch[meta.location.archetype as usize].is_some()
@@ -1580,7 +1580,7 @@ impl<'q, Q: Query> PreparedView<'q, Q> {
     /// Must not be invoked while any unique borrow of the fetched components of `entity` is live.
     pub unsafe fn get_unchecked(&self, entity: Entity) -> Option<Q::Item<'_>> {
         let meta = self.meta.get(entity.id as usize)?;
-        if meta.generation != entity.generation {
+        if meta.generation != entity.generation || meta.location.index == u32::MAX {
             return None;
         }
 
